@@ -253,7 +253,11 @@ func c01Processor(metrics *chain.ChainMetrics, rules *genesis.Rules, cores, fetc
 }
 
 func c01NewProcessor(metrics *chain.ChainMetrics, rules *genesis.Rules, w workers.Workers, cores, fetch int, vw chain.ValidityWindow) *chain.Processor {
-	return chain.NewProcessor(trace.Noop, &logging.NoLog{}, &genesis.ImmutableRuleFactory{Rules: rules}, w,
+	return c01NewProcessorRF(metrics, &genesis.ImmutableRuleFactory{Rules: rules}, w, cores, fetch, vw)
+}
+
+func c01NewProcessorRF(metrics *chain.ChainMetrics, rf chain.RuleFactory, w workers.Workers, cores, fetch int, vw chain.ValidityWindow) *chain.Processor {
+	return chain.NewProcessor(trace.Noop, &logging.NoLog{}, rf, w,
 		hAuthEngines{}, hMeta, hBalance, vw, metrics,
 		chain.Config{TargetBuildDuration: time.Hour, TransactionExecutionCores: cores, StateFetchConcurrency: fetch, TargetTxsSize: 1 << 30})
 }
@@ -399,6 +403,21 @@ func c01Corpus() []string {
 		mk(10, map[int]int{4: 7}, []string{"d4", "g4"}),
 		mk(8, map[int]int{0: 1, 1: 1, 4: 1}, []string{"g0", "g1", "g4"}),
 	}, c01Configs)
+	// fund-then-spend: sponsor 8 has no balance entry in the parent; tx 0 (paid by 9) creates it, tx 1 and 2 are paid by 8
+	c01EmitBlock(&l, "100,100,100,100,100", c01Huge, "parent 0=1 9=1000000000000 10=1000000000000", []*hGenTx{
+		mk(9, map[int]int{8: 7}, []string{"g8", "p8=1000000000"}),
+		mk(8, map[int]int{0: 7}, []string{"g0", "p0=2"}),
+		mk(8, map[int]int{}, []string{}),
+	}, c01Configs)
+	// parent keys whose value is the empty byte string: read, overwrite without Allocate, delete, compare-equal write
+	c01EmitBlock(&l, "1,1,1,1,1", c01Huge, "parent 0=E 1=E 3=E 4=E 8=1000000000000 9=1000000000000 10=1000000000000", []*hGenTx{
+		mk(8, map[int]int{0: 1}, []string{"g0"}),
+		mk(9, map[int]int{1: 5}, []string{"p1=7", "g1"}),
+		mk(10, map[int]int{3: 5}, []string{"d3", "g3"}),
+		mk(8, map[int]int{4: 5}, []string{"p4=E", "g4"}),
+		mk(9, map[int]int{5: 7}, []string{"p5=E", "g5"}),
+		mk(10, map[int]int{0: 1, 1: 1, 3: 1, 4: 1, 5: 1}, []string{"g0", "g1", "g3", "g4", "g5"}),
+	}, c01Configs)
 	// sponsor chain: three txs of one sponsor, an action overwrites the balance in between
 	c01EmitBlock(&l, "1,1,1,1,1", c01Huge, "parent 8=100000 9=1000000000000", []*hGenTx{
 		mk(8, map[int]int{}, []string{}),
@@ -492,6 +511,28 @@ func c01Generate(r *verifh.Run) []string {
 		}
 		if poor {
 			parentLine = genParent(rng, true)
+		} else if rng.Chance(25) {
+			// fund-then-spend: sponsor 0 is poor in the parent, gets funded inside the block, then pays
+			moveSponsor(txs, hNumActionKeys, hNumActionKeys+1)
+			a, b2 := genFundPair(rng)
+			i := rng.Intn(len(txs) + 1)
+			txs = append(txs[:i], append([]*hGenTx{a}, txs[i:]...)...)
+			j := i + 1 + rng.Intn(len(txs)-i)
+			txs = append(txs[:j], append([]*hGenTx{b2}, txs[j:]...)...)
+			if rng.Chance(30) { // a second tx of the freshly funded sponsor
+				txs = append(txs, &hGenTx{sponsor: hNumActionKeys, pre: "1", keys: map[int]int{hNumActionKeys: 5}})
+			}
+			f := strings.Fields(parentLine)
+			var keep []string
+			for _, kv := range f {
+				if !strings.HasPrefix(kv, fmt.Sprintf("%d=", hNumActionKeys)) {
+					keep = append(keep, kv)
+				}
+			}
+			if rng.Chance(40) {
+				keep = append(keep, fmt.Sprintf("%d=%d", hNumActionKeys, rng.Intn(60)))
+			}
+			parentLine = strings.Join(keep, " ")
 		}
 		c01EmitBlock(&lines, prices, maxUnits, parentLine, txs, configs)
 	}
